@@ -63,6 +63,13 @@ def main(tier, seed):
             code_lines = c.result["code"].split("\n")
             e = next(e for e in c.entries if True)
             bad_e = [e for e in c.entries if not _is_term(code_lines[e - 1])]
+            # the line before an entry is not a jump, but it is dead code behind one (the load of a result
+            # after a call that became a tail jump): no execution enters the region there
+            live = reachable_lines(c.result["code"])
+            if bad_e and all((e - 1) not in live for e in bad_e):
+                dist["open_only_behind_dead_code"] = dist.get("open_only_behind_dead_code", 0) + 1
+                c.closed = True
+                continue
             rec = {"kind": "closure", "closed": False, "main_can_terminate": pipeline.main_can_terminate(c.prog),
                    "entries": c.entries, "open_entries": bad_e,
                    "line_before_entry": [code_lines[e - 1].strip() for e in bad_e][:3],
@@ -133,6 +140,60 @@ def main(tier, seed):
     if keep:
         run.sample({"code": keep[0].result["code"][:500], "entries": keep[0].entries, "closed": keep[0].closed})
     return run.finish(assumptions_text=ass, trusted_extra=TRUST)
+
+
+def reachable_lines(code):
+    """conservative reachability over the emitted text (line 0 is the start): labels fall through, `j`
+    goes to its target, `jal` to its target and to the next line (the return), a branch to its target and to
+    the next line, `jr` / relative branches / numeric or register targets to every line (over-approximation),
+    `hcf` nowhere.  Only used to tell dead code after an unconditional jump from a real way into a region."""
+    from ..ic10 import tokenize
+    lines = code.split("\n")
+    n = len(lines)
+    toks = [tokenize(l) for l in lines]
+    label_at = {t[0][:-1]: i for i, t in enumerate(toks) if len(t) == 1 and t[0].endswith(":")}
+    everything = False
+    succ = [[] for _ in range(n)]
+    for i, t in enumerate(toks):
+        if not t or (len(t) == 1 and t[0].endswith(":")):
+            succ[i].append(i + 1)
+            continue
+        op = t[0]
+        if op == "hcf":
+            continue
+        if op in ("j", "jal"):
+            tgt = t[1] if len(t) > 1 else None
+            if tgt == "ra":
+                pass
+            elif tgt in label_at:
+                succ[i].append(label_at[tgt])
+            else:
+                everything = True
+            if op == "jal":
+                succ[i].append(i + 1)
+            continue
+        if op == "jr" or (op.startswith("br") and op not in ("brnaz",)):
+            everything = True
+            continue
+        if op.startswith("b") and op not in ("bnez_",):
+            tgt = t[-1]
+            if tgt in label_at:
+                succ[i].append(label_at[tgt])
+            else:
+                everything = True
+            succ[i].append(i + 1)
+            continue
+        succ[i].append(i + 1)
+    if everything:
+        return set(range(n))
+    seen, todo = set(), [0]
+    while todo:
+        i = todo.pop()
+        if i in seen or i >= n:
+            continue
+        seen.add(i)
+        todo += succ[i]
+    return seen
 
 
 def _is_term(line):
